@@ -38,6 +38,9 @@ type C03Case struct {
 	// EarlierAudience: a moment ago the application was registered under this entity ID and the same provider answered a
 	// callback for it; since then the application has moved to the entity ID of the spec. Only the registration in force counts.
 	EarlierAudience string `json:"earlier_audience,omitempty"`
+	// Twice: the user agent opens the callback twice (reload, back button): the reply compared is the second one, and its IDs
+	// must be fresh with respect to the first
+	Twice bool `json:"callback_twice,omitempty"`
 }
 
 var timeFormats = []string{"", "", time.RFC3339, "2006-01-02T15:04:05.000000000Z", "2006-01-02T15:04:05Z", time.RFC3339Nano}
@@ -87,6 +90,7 @@ func genC03Case(t *rapid.T) C03Case {
 			c.FaultOp, c.Fault = "GetEntityIDByAppID", rapid.SampledFrom([]string{"error", "timeout", "errval"}).Draw(t, "fault2")
 		}
 	}
+	c.Twice = rapid.IntRange(0, 3).Draw(t, "twice") == 0
 	if rapid.IntRange(0, 3).Draw(t, "earlier-audience") == 0 {
 		c.EarlierAudience = rapid.SampledFrom([]string{"https://earlier-audience.example/metadata", "urn:example:earlier", stdSP(0).EntityID}).Draw(t, "earlier-audiencev")
 	}
@@ -353,6 +357,18 @@ func TestC03(t *testing.T) {
 			w.Store.SetApp(req.AppID, c.EarlierAudience)
 			obs.Do(w.Handler, hr)
 			w.Store.SetApp(req.AppID, c.Spec.Apps[req.AppID])
+			w.Store.ResetLog()
+		}
+		if c.Twice {
+			first := obs.Do(w.Handler, hr)
+			if fd := obs.Decode(first); fd != nil {
+				if fr := obs.ReadResponse(obs.FindResponse(fd.Root())); fr != nil {
+					freshID(fr.ID)
+					for _, a := range fr.Assertions {
+						freshID(a.ID)
+					}
+				}
+			}
 			w.Store.ResetLog()
 		}
 		if c.Fault != "" {
